@@ -604,7 +604,34 @@ def main():
         changed.append('Skeleton.v')
     if write_if_changed(os.path.join(outdir, 'SkelTree.v'), sk_tree):
         changed.append('SkelTree.v')
-    info = {'repo': REPO,
+    # plugins: translator/plugins/<name>.py with
+    #   generate(repo) -> (coq_text, json_info, [(item, reason), ...])
+    # each writes Gen/X<Name>.v (fail closed: a failing plugin writes a file
+    # WITHOUT the definitions that failed and reports them)
+    import importlib.util
+    plug_dir = os.path.join(os.path.dirname(os.path.abspath(__file__)),
+                            'plugins')
+    plug_info = {}
+    for fn in sorted(os.listdir(plug_dir)) if os.path.isdir(plug_dir) else []:
+        if not fn.endswith('.py') or fn.startswith('_'):
+            continue
+        name = fn[:-3]
+        try:
+            spec = importlib.util.spec_from_file_location(
+                'plugin_' + name, os.path.join(plug_dir, fn))
+            mod = importlib.util.module_from_spec(spec)
+            spec.loader.exec_module(mod)
+            text, pj, pfailed = mod.generate(REPO)
+        except Exception as exc:  # noqa
+            text, pj, pfailed = (
+                "(* GENERATED - plugin failed *)\n", {},
+                [(f"plugin:{name}", f"{type(exc).__name__}: {exc}")])
+        g.failed += list(pfailed)
+        plug_info[name] = pj
+        out_name = 'X' + name[0].upper() + name[1:] + '.v'
+        if write_if_changed(os.path.join(outdir, out_name), text):
+            changed.append(out_name)
+    info = {'repo': REPO, 'plugins': plug_info,
             'params': {n: v for n, _, _, v in g.params},
             'exprs': {e[0]: {'args': e[1], 'body': e[3], 'source': e[5]}
                       for e in g.exprs},
